@@ -81,7 +81,13 @@ def real_cases(seed, n):
             args["always_continue"] = "true"
             post_script = rng.choice(["S", "S", "C"])
             post_delay = rng.choice([None, None, 0, 1, 3])
-        cfg = KG.kill_config(plugin, args, extra)
+        hooks, hspec = None, {}
+        if rng.random() < 0.3:
+            # "... or prekill-hook waits": the dry kill only completes after its hook took 1-3 more ticks; the pause counts from then
+            hooks = [{"name": "v_hook", "args": {"id": "h0", "cgroup": "/"}}]
+            hspec = {"h0": [{"polls": rng.choice([1, 1, 2, 3])} for _ in range(12)]}
+            extra = dict(extra, prekill_hook_timeout="60")
+        cfg = KG.kill_config(plugin, args, extra, hooks=hooks)
         if always and post_delay is not None:
             cfg["rulesets"][0]["actions"][2]["args"]["post_action_delay"] = str(post_delay)
         if rdelay is None:
@@ -96,11 +102,11 @@ def real_cases(seed, n):
                     ops.append({"op": "write", "cg": r, "file": "io.stat", "text": KG.iostat_text(rng, t + 1)})
             ticks.append({"step_ns": rng.choice(STEPS), "ops": ops})
         cid = "C05r-%d-%d" % (seed, i)
-        scn = KG.base_scn(cid, cgs, cfg, ticks=ticks)
+        scn = KG.base_scn(cid, cgs, cfg, ticks=ticks, hooks=hspec)
         if always:
             scn["scripts"] = {"post": [post_script] * (nticks + 2)}
         yield core.Case(cid, [scn], {"real": True, "plugin": plugin, "own": own, "ruleset": 15 if rdelay is None else int(rdelay),
-                                     "always": always, "post": post_script, "post_delay": post_delay})
+                                     "always": always, "post": post_script, "post_delay": post_delay, "hook": bool(hooks)})
 
 
 _cases_scripted = cases
@@ -150,6 +156,8 @@ def judge_real(case, results):
         if any(KMSG.match(l) and "(dry)" in l for l in inv.kmsg):
             pause_until = now + d
     v.count("real_plugin_cases")
+    if m.get("hook"):
+        v.count("real_plugin_cases_with_hook_wait")
     v.count("pause_blocked", blocked)
     v.count("chain_starts", starts)
     v.nontrivial = blocked > 0 and starts > 1
